@@ -357,5 +357,255 @@ theorem desugar_vars (N : Nat) : ∀ n : Node, sizeOf n < N → ∀ cmd, desugar
       · cases hd; intro v hv; simp [Cmd.vars] at hv
     · cases hd
 
+/-! ## plain guards -/
+
+/-- the guard `loop_compat` accepts for this `for` statement is neither empty nor reserved -/
+def guardPlainAt (n : Node) : Bool :=
+  match Syntax.loopCompat n with
+  | .ok (true, some X) => X != "" && !Gen.reserved.contains X
+  | _ => true
+
+mutual
+/-- every accepted loop guard in statement position is a plain name -/
+def guardsPlain : Node → Bool
+  | .while_ _ b => guardsPlain b
+  | .doWhile _ b => guardsPlain b
+  | .for_ i c n b => guardPlainAt (.for_ i c n b) && guardsPlain b
+  | .compound (some l) => guardsPlainL l
+  | .ifs _ t f => guardsPlainO t && guardsPlainO f
+  | .label _ s => guardsPlain s
+  | .exprList es => guardsPlainL es
+  | .cast e => guardsPlain e
+  | _ => true
+def guardsPlainL : List Node → Bool
+  | [] => true
+  | n :: ns => guardsPlain n && guardsPlainL ns
+def guardsPlainO : Option Node → Bool
+  | none => true
+  | some n => guardsPlain n
+end
+
+mutual
+theorem noFor_of_loopFree : ∀ cmd : Cmd, cmd.loopFree = true → noFor cmd = true
+  | .skip, _ => rfl
+  | .asgnVar .., _ => rfl
+  | .asgnConst .., _ => rfl
+  | .bin .., _ => rfl
+  | .seq l, h => by rw [Cmd.loopFree] at h; rw [noFor]; exact noForL_of_loopFreeL l h
+  | .ite t f, h => by
+    simp only [Cmd.loopFree, Bool.and_eq_true] at h
+    simp only [noFor, Bool.and_eq_true]
+    exact ⟨noFor_of_loopFree t h.1, noFor_of_loopFree f h.2⟩
+  | .while_ _, h => by simp [Cmd.loopFree] at h
+  | .loop _ _, h => by simp [Cmd.loopFree] at h
+theorem noForL_of_loopFreeL : ∀ l : List Cmd, loopFreeL l = true → noForL l = true
+  | [], _ => rfl
+  | c :: cs, h => by
+    simp only [loopFreeL, Bool.and_eq_true] at h
+    simp only [noForL, Bool.and_eq_true]
+    exact ⟨noFor_of_loopFree c h.1, noForL_of_loopFreeL cs h.2⟩
+end
+
+theorem lcP_body {init cond next : Option Node} {b : Node} {X : String}
+    (h : lcP init cond next b = (true, some X)) : X ∉ varsP b := by
+  unfold lcP at h
+  rw [Mwp.loopCompatOf_eq] at h
+  split at h
+  · rename_i x _
+    split at h
+    · cases h
+    · rename_i hc
+      simp only [Prod.mk.injEq, Option.some.injEq, true_and] at h
+      subst h
+      intro hx
+      apply hc
+      simp only [List.contains_eq_mem, decide_eq_true_eq]
+      exact (mem_normVars' x _).2 hx
+  · cases h
+
+theorem guardsFreshL_of_plain (l : List Node)
+    (IH : ∀ n ∈ l, ∀ cmd, desugar n = some cmd → guardsPlain n = true → guardsFresh cmd = true) :
+    ∀ cs, desugarL l = some cs → guardsPlainL l = true → guardsFreshL cs = true := by
+  induction l with
+  | nil =>
+    intro cs hd _
+    simp only [desugarL, Option.some.injEq] at hd
+    subst hd; rfl
+  | cons n ns ih =>
+    intro cs hd hp
+    rw [desugarL] at hd
+    cases hdn : desugar n with
+    | none => simp [hdn] at hd
+    | some cmd =>
+      cases hdl : desugarL ns with
+      | none => simp [hdn, hdl] at hd
+      | some cs' =>
+        simp only [hdn, hdl, Option.some.injEq] at hd
+        subst hd
+        simp only [guardsPlainL, Bool.and_eq_true] at hp
+        simp only [guardsFreshL, Bool.and_eq_true]
+        exact ⟨IH n (List.mem_cons_self ..) cmd hdn hp.1,
+          ih (fun m hm => IH m (List.mem_cons_of_mem _ hm)) cs' hdl hp.2⟩
+
+theorem guardsFreshO_of_plain (o : Option Node)
+    (IH : ∀ n, o = some n → ∀ cmd, desugar n = some cmd → guardsPlain n = true → guardsFresh cmd = true) :
+    ∀ a, desugarO o = some a → guardsPlainO o = true → guardsFresh a = true := by
+  intro a hd hp
+  cases o with
+  | none => rw [desugarO] at hd; cases hd; rfl
+  | some n =>
+    rw [desugarO] at hd
+    rw [guardsPlainO] at hp
+    exact IH n rfl a hd hp
+
+theorem guardsFresh_of_plain_aux (N : Nat) : ∀ n : Node, sizeOf n < N → ∀ cmd, desugar n = some cmd →
+    guardsPlain n = true → guardsFresh cmd = true := by
+  induction N with
+  | zero => intro n h; omega
+  | succ N ih =>
+    intro node hsz cmd hd hp
+    by_cases hrec : isRec node = false
+    · exact guardsFresh_of_noFor cmd (noFor_of_loopFree cmd (desugar_leaf_loopFree node hrec cmd hd))
+    cases node <;> first | (exfalso; exact hrec rfl) | skip
+    · -- (T) e;
+      rename_i e
+      rw [desugar] at hd
+      rw [guardsPlain] at hp
+      exact ih e (by simp only [Node.cast.sizeOf_spec] at hsz; omega) cmd hd hp
+    · -- e1, e2
+      rename_i es
+      rw [desugar] at hd
+      rw [guardsPlain] at hp
+      cases hdl : desugarL es with
+      | none => simp [hdl] at hd
+      | some cs =>
+        simp only [hdl, Option.map_some, Option.some.injEq] at hd
+        subst hd
+        rw [guardsFresh]
+        exact guardsFreshL_of_plain es (fun m hm => ih m (by
+          have := sizeOf_mem_lt' hm
+          simp only [Node.exprList.sizeOf_spec] at hsz; omega)) cs hdl hp
+    · -- { l }
+      rename_i items
+      cases items with
+      | none => exact absurd rfl hrec
+      | some l =>
+        rw [desugar] at hd
+        rw [guardsPlain] at hp
+        cases hdl : desugarL l with
+        | none => simp [hdl] at hd
+        | some cs =>
+          simp only [hdl, Option.map_some, Option.some.injEq] at hd
+          subst hd
+          rw [guardsFresh]
+          exact guardsFreshL_of_plain l (fun m hm => ih m (by
+            have := sizeOf_mem_lt' hm
+            simp only [Node.compound.sizeOf_spec, Option.some.sizeOf_spec] at hsz; omega)) cs hdl hp
+    · -- if
+      rename_i cond t f
+      rw [desugar] at hd
+      rw [guardsPlain] at hp
+      simp only [Bool.and_eq_true] at hp
+      cases ha : desugarO t with
+      | none => simp [ha] at hd
+      | some a =>
+        cases hb : desugarO f with
+        | none => simp [ha, hb] at hd
+        | some b =>
+          simp only [ha, hb, Option.some.injEq] at hd
+          subst hd
+          have hst : sizeOf t < N := by simp only [Node.ifs.sizeOf_spec] at hsz; omega
+          have hsf : sizeOf f < N := by simp only [Node.ifs.sizeOf_spec] at hsz; omega
+          simp only [guardsFresh, Bool.and_eq_true]
+          exact ⟨guardsFreshO_of_plain t (fun n hn => ih n (by
+              subst hn; simp only [Option.some.sizeOf_spec] at hst; omega)) a ha hp.1,
+            guardsFreshO_of_plain f (fun n hn => ih n (by
+              subst hn; simp only [Option.some.sizeOf_spec] at hsf; omega)) b hb hp.2⟩
+    · -- while
+      rename_i cond b
+      rw [desugar] at hd
+      rw [guardsPlain] at hp
+      cases hdb : desugar b with
+      | none => simp [hdb] at hd
+      | some cb =>
+        simp only [hdb, Option.map_some, Option.some.injEq] at hd
+        subst hd
+        rw [guardsFresh]
+        exact ih b (by simp only [Node.while_.sizeOf_spec] at hsz; omega) cb hdb hp
+    · -- do-while
+      rename_i cond b
+      rw [desugar] at hd
+      rw [guardsPlain] at hp
+      cases hdb : desugar b with
+      | none => simp [hdb] at hd
+      | some cb =>
+        simp only [hdb, Option.map_some, Option.some.injEq] at hd
+        subst hd
+        rw [guardsFresh]
+        exact ih b (by simp only [Node.doWhile.sizeOf_spec] at hsz; omega) cb hdb hp
+    · -- for
+      rename_i init cond next b
+      rw [desugar, loopCompat_for] at hd
+      rw [guardsPlain, guardPlainAt, loopCompat_for] at hp
+      split at hd
+      · rename_i X hlc
+        have hlc' : lcP init cond next b = (true, some X) := by simpa using hlc
+        rw [hlc'] at hp
+        simp only [Bool.and_eq_true, bne_iff_ne, ne_eq, Bool.not_eq_true', List.contains_eq_mem,
+          decide_eq_false_iff_not] at hp
+        cases hdb : desugar b with
+        | none => simp [hdb] at hd
+        | some cb =>
+          simp only [hdb, Option.map_some, Option.some.injEq] at hd
+          subst hd
+          have hsb : sizeOf b < N := by simp only [Node.for_.sizeOf_spec] at hsz; omega
+          simp only [guardsFresh, Bool.and_eq_true, bne_iff_ne, ne_eq, Bool.not_eq_true',
+            List.contains_eq_mem, decide_eq_false_iff_not]
+          refine ⟨⟨hp.1.1, ?_⟩, ih b hsb cb hdb hp.2⟩
+          intro hX
+          rcases desugar_vars (sizeOf b + 1) b (Nat.lt_succ_self _) cb hdb X hX with h | h | h
+          · exact lcP_body hlc' h
+          · exact hp.1.2 h
+          · exact hp.1.1 h
+      · cases hd
+    · -- label
+      rename_i name st
+      rw [desugar] at hd
+      rw [guardsPlain] at hp
+      exact ih st (by simp only [Node.label.sizeOf_spec] at hsz; omega) cmd hd hp
+
 end Refine
+
+open Spec Refine in
+/-- `guardsFresh` holds for the reading of any statement whose accepted `for` guards are plain
+    names (a check on the syntax tree alone) -/
+theorem guardsFresh_of_guardsPlain (node : Node) (cmd : Cmd) (hd : desugar node = some cmd)
+    (hp : guardsPlain node = true) : guardsFresh cmd = true :=
+  guardsFresh_of_plain_aux (sizeOf node + 1) node (Nat.lt_succ_self _) cmd hd hp
+
+open Spec Refine in
+/-- **Refinement, loops included**, with all side conditions on the syntax tree:
+    `compute_refines_partial` where `guardsFresh cmd` follows from `guardsPlain node`. -/
+theorem compute_refines_plain_partial (node : Node) (cmd : Cmd) (hd : desugar node = some cmd)
+    (q : Bool) (idx : Nat) (dg : DG.Graph) (hnames : namesOkA node = true) (hcast : castOkA node = true)
+    (hplain : guardsPlain node = true)
+    (out : Analysis.Out) (hc : Analysis.compute q idx dg node = .ok out) :
+    (q = true → out.exit = false) ∧
+    (∃ ops : List DG.Op, ops.foldlM DG.step dg = .ok out.dg ∧
+      ∀ t ∈ DG.inserted ops, ∀ U : List String, U.Nodup → (∀ v ∈ cmd.vars, v ∈ U) →
+        ∀ c : Choice, (∀ k, idx ≤ k → k < idx + cmd.arity → ∃ a, c[k]? = some a ∧ a < 3) →
+          (t.all fun d => c[d.2]? == some d.1) = true →
+          sem U cmd idx (relabelAt idx cmd c) = none) ∧
+    (out.exit = false →
+      out.index = idx + cmd.arity ∧
+      ∃ r, out.rels = [r] ∧ r.WF ∧ (∀ v ∈ r.vars, v ∈ cmd.vars) ∧
+        ∀ U : List String, U.Nodup → (∀ v ∈ cmd.vars, v ∈ U) →
+        ∀ c : Choice, (∀ k, idx ≤ k → k < idx + cmd.arity → ∃ a, c[k]? = some a ∧ a < 3) →
+          match sem U cmd idx (relabelAt idx cmd c) with
+          | some (k, M) => k = idx + cmd.arity ∧ (∀ a b, r.den c a b ≠ .i) ∧
+                           ∀ x y, x ∈ U → y ∈ U → r.den c x y = SMat.den U M x y
+          | none => ∃ a b, r.den c a b = .i) :=
+  compute_refines_partial node cmd hd q idx dg hnames hcast
+    (guardsFresh_of_guardsPlain node cmd hd hplain) out hc
+
 end Mwp
